@@ -126,7 +126,7 @@ func (s *State) has(tr *Transition) bool {
 // Parse tries to navigate into the FSM according to the provided args
 func (s *State) Parse(args []string) error {
 	pc := matcher.NewParseContext()
-	ok := s.apply(args, pc, nil)
+	ok := s.apply(args, pc, map[string]bool{})
 	if !ok {
 		return fmt.Errorf("incorrect usage")
 	}
@@ -157,22 +157,16 @@ func fillContainers(containers map[*container.Container][]string) error {
 	return nil
 }
 
-// visit identifies a call to apply that has not consumed any input since an enclosing call
-type visit struct {
-	state         *State
-	rejectOptions bool
-}
-
-func (s *State) apply(args []string, pc matcher.ParseContext, idle []visit) bool {
-	// idle lists the calls entered since input was last consumed. Coming back to one of them
-	// (via matchers that succeed without consuming: env backed options, --) cannot find anything
-	// the first visit does not find, and would recurse forever
-	for _, v := range idle {
-		if v.state == s && v.rejectOptions == pc.RejectOptions {
-			return false
-		}
+func (s *State) apply(args []string, pc matcher.ParseContext, visited map[string]bool) bool {
+	// The outcome of a call only depends on the state, the remaining arguments and whether options were ended, so each such
+	// configuration is explored once: coming back to one that is being explored is a cycle of matchers which succeed without
+	// consuming (env backed options, --), and one that was explored before has already failed. Without this, the search is
+	// exponential in the number of arguments when such matchers sit in repetitions
+	key := fmt.Sprintf("%p %t %q", s, pc.RejectOptions, args)
+	if visited[key] {
+		return false
 	}
-	idle = append(idle, visit{s, pc.RejectOptions})
+	visited[key] = true
 
 	if len(args) > 0 {
 		arg := args[0]
@@ -203,28 +197,11 @@ func (s *State) apply(args []string, pc matcher.ParseContext, idle []visit) bool
 	}
 
 	for _, m := range matches {
-		seen := idle
-		if consumed(args, m.rem) {
-			seen = nil
-		}
-		if ok := m.tr.Next.apply(m.rem, m.pc, seen); ok {
+		if ok := m.tr.Next.apply(m.rem, m.pc, visited); ok {
 			pc.Merge(m.pc)
 			return true
 		}
 	}
 
-	return false
-}
-
-// consumed tells whether a matcher took something from the arguments (a whole token or a part of one)
-func consumed(before, after []string) bool {
-	if len(before) != len(after) {
-		return true
-	}
-	for i := range before {
-		if before[i] != after[i] {
-			return true
-		}
-	}
 	return false
 }
